@@ -10,6 +10,7 @@ import (
 	"fmt"
 	"hash/fnv"
 	"reflect"
+	"runtime"
 	"sort"
 	"strings"
 	"sync"
@@ -94,12 +95,17 @@ type Outcome struct {
 	Deadlock bool
 	Horizon  bool
 	Stuck    bool // a task ran for longer than the watchdog without reaching a scheduling point
-	Cut      bool // abandoned at an already-visited state; not to be judged
-	Panics   []string
-	Steps    int
-	Tasks    int
-	Blocked  []string // tasks parked when the execution ended (deadlock / leak)
-	Sites    int
+	// Foreign: the running task is blocked in a primitive the scheduler does not model (io.Pipe, sync.Cond, a context,
+	// a real mutex of an uninstrumented package ...). Under the cooperative scheduler nothing else can run to release
+	// it, so this is an artefact of the harness, not a behaviour of the code: the execution is not to be judged.
+	Foreign    bool
+	ForeignWhy string
+	Cut        bool // abandoned at an already-visited state; not to be judged
+	Panics     []string
+	Steps      int
+	Tasks      int
+	Blocked    []string // tasks parked when the execution ended (deadlock / leak)
+	Sites      int
 }
 
 func (o Outcome) String() string {
@@ -112,6 +118,9 @@ func (o Outcome) String() string {
 	}
 	if o.Stuck {
 		p = append(p, "task stuck without reaching a scheduling point")
+	}
+	if o.Foreign {
+		p = append(p, "task blocked outside the modelled primitives ("+o.ForeignWhy+")")
 	}
 	for _, x := range o.Panics {
 		p = append(p, "panic "+x)
@@ -225,6 +234,56 @@ func (s *Sched) launch(t *task) {
 		}
 		t.fn()
 	}()
+}
+
+// ForeignBlock is the panic value with which Run abandons an execution whose running task is blocked in a primitive
+// the scheduler does not model (see Outcome.Foreign).
+type ForeignBlock struct {
+	Why, Task string
+	Step      int
+}
+
+func (f ForeignBlock) Error() string {
+	return fmt.Sprintf("task %s blocked outside the modelled primitives at step %d: %s", f.Task, f.Step, f.Why)
+}
+
+// foreignBlocked looks at the goroutine of the running task (the one goroutine started by launch that is neither
+// parked by the scheduler nor waiting for its first wake-up) and reports whether it is blocked in a wait state
+// (channel, select, condition variable, mutex, semaphore) rather than running, runnable, sleeping or in a system call.
+func foreignBlocked() (bool, string) {
+	buf := make([]byte, 1<<20)
+	for {
+		n := runtime.Stack(buf, true)
+		if n < len(buf) {
+			buf = buf[:n]
+			break
+		}
+		buf = make([]byte, 2*len(buf))
+	}
+	for _, g := range strings.Split(string(buf), "\n\n") {
+		if !strings.Contains(g, "sched.(*Sched).launch.func1") || strings.Contains(g, "sched.(*Sched).park(") {
+			continue
+		}
+		lines := strings.Split(g, "\n")
+		if len(lines) < 2 || strings.Contains(lines[1], "sched.(*Sched).launch.func1") {
+			continue // waiting for its first wake-up, or reporting its end
+		}
+		hdr := lines[0]
+		i, j := strings.IndexByte(hdr, '['), strings.IndexByte(hdr, ']')
+		if i < 0 || j < i {
+			continue
+		}
+		state := hdr[i+1 : j]
+		if k := strings.IndexByte(state, ','); k >= 0 {
+			state = state[:k]
+		}
+		switch state {
+		case "running", "runnable", "syscall", "sleep", "IO wait", "GC assist wait", "GC sweep wait", "GC worker (idle)":
+			return false, state
+		}
+		return true, state + " in " + strings.TrimSpace(lines[1])
+	}
+	return false, "running task not found"
 }
 
 // hasParked returns the first task (in creation order) other than not that is parked in a plain send / receive on ch.
@@ -600,14 +659,31 @@ func Run(ctx *mc.Ctx, opt Options, main func()) Outcome {
 			default:
 			}
 		}
-		timer.Reset(opt.Watchdog)
-		select {
-		case <-s.back:
-		case <-timer.C:
-			// the task never came back: it spins without a scheduling point
-			out.Stuck = true
-			out.Steps, out.Tasks = s.steps, len(s.tasks)
-			return out // goroutines are leaked; the caller must stop exploring
+		const probe = 2 * time.Second
+		timer.Reset(probe)
+		for waited := time.Duration(0); ; {
+			progressed := false
+			select {
+			case <-s.back:
+				progressed = true
+			case <-timer.C:
+			}
+			if progressed {
+				break
+			}
+			waited += probe
+			if blocked, why := foreignBlocked(); blocked {
+				// goroutines are leaked; the unit cannot go on. The panic travels up to the unit runner, which
+				// records the unit as not decided (a cap), never as a violation.
+				panic(ForeignBlock{Why: why, Task: t.name, Step: s.steps})
+			}
+			if waited >= opt.Watchdog {
+				// the task never came back: it spins without a scheduling point
+				out.Stuck = true
+				out.Steps, out.Tasks = s.steps, len(s.tasks)
+				return out // goroutines are leaked; the caller must stop exploring
+			}
+			timer.Reset(probe)
 		}
 		if t.done && t.panicked {
 			out.Panics = append(out.Panics, t.name+": "+t.pmsg)
